@@ -218,7 +218,7 @@ Section Roundtrip.
     (do kt0 <- lookup_ty reg kname;
      do vt0 <- lookup_ty reg vname;
      do c <- container_ty reg ct (TMap (add_ptr kpn kt0) (add_ptr vpn vt0));
-     do kvs <- mapM (fun e => do k <- dec_key JK kdec (add_ptr kpn kt0) (fst e);
+     do kvs <- mapM (fun e => do k <- dec_key JK kdec env (add_ptr kpn kt0) (fst e);
                               do v <- HOLE (add_ptr vpn vt0) (snd e);
                               Ok (k, v)) entries;
      Ok (wrap_ptr pn (as_ty c (VMap (add_ptr kpn kt0) (add_ptr vpn vt0) (Some kvs))))).
@@ -308,6 +308,77 @@ Section Roundtrip.
     - intros _. exact HC.
   Qed.
 
+  (* ---- map keys: the plain JSON of a key-shaped value is read back as that value *)
+  Lemma mapM_length {A B} (f : A -> res B) : forall l bs, mapM f l = Ok bs -> List.length bs = List.length l.
+  Proof.
+    induction l as [|a l IH]; intros bs H.
+    - rewrite mapM_nil in H. now inversion H.
+    - rewrite mapM_cons in H. bind_inv H. bind_inv H. inversion H; subst. simpl. f_equal. now apply IH.
+  Qed.
+  Lemma Forall2_eq {A} : forall (l m : list A), Forall2 eq l m -> l = m.
+  Proof. induction 1; congruence. Qed.
+  Lemma safe_flat : forall (A : Type) (f : A -> val) (l : list A),
+    Forall (fun bl => jsafe (snd bl) = true) (flat_map (fun a => lits_of (f a)) l) ->
+    Forall (fun a => safe (f a)) l.
+  Proof. intros A f l H. apply Forall_flat_map in H. exact H. Qed.
+
+  Lemma dec_kfields_nil : forall (d : ty -> kjson JK -> res val), dec_kfields d [] [] = Ok [].
+  Proof. reflexivity. Qed.
+  Lemma dec_kfields_cons : forall (d : ty -> kjson JK -> res val) f j l g ft ds,
+    dec_kfields d ((f, j) :: l) ((g, ft) :: ds) =
+    (if String.eqb f g then do v <- d ft j; do r <- dec_kfields d l ds; Ok ((f, v) :: r) else Err 3%N).
+  Proof. reflexivity. Qed.
+
+  Lemma key_rt : forall a, wt env a = true -> kval a = true -> safe a ->
+    forall kj, enc_key JK kenc a = Ok kj -> dec_key JK kdec env (ty_of a) kj = Ok a.
+  Proof.
+    induction a using val_ind'; intros Hwt Hkv Hs kj He; simpl in Hkv; try discriminate Hkv.
+    - (* VBase *) simpl in He. bind_inv He. inversion He; subst. clear He. simpl.
+      assert (Hj : jsafe l = true) by (inversion Hs; assumption).
+      simpl in Hwt. now rewrite (krt _ _ _ Hwt Hj Ha).
+    - (* VNamed *) simpl in He. bind_inv He. inversion He; subst. clear He. simpl.
+      assert (Hj : jsafe l = true) by (inversion Hs; assumption).
+      simpl in Hwt. now rewrite (krt _ _ _ Hwt Hj Ha).
+    - (* VStruct *)
+      rename H into IH.
+      simpl in He. bind_inv He. inversion He; subst. clear He. simpl.
+      rewrite wt_struct in Hwt. destruct (struct_fields env n) as [ds|]; [|discriminate Hwt].
+      assert (Hss : Forall (fun fv => safe (snd fv)) fs).
+      { unfold safe in Hs. simpl in Hs. now apply (safe_flat _ (fun fv : string * val => snd fv)). }
+      assert (Hd : dec_kfields (fun ft j => dec_key JK kdec env ft j) a ds = Ok fs).
+      { clear Hs. revert ds a Hwt Ha. induction fs as [|[f w] fs IHfs]; intros ds l Hwt Ha.
+        - rewrite mapM_nil in Ha. inversion Ha; subst. destruct ds as [|[g t] ds]; [reflexivity|simpl in Hwt; discriminate Hwt].
+        - destruct ds as [|[g t] ds]; [discriminate Hwt|].
+          simpl in Hwt. repeat (apply andb_true_iff in Hwt; destruct Hwt as [Hwt ?]).
+          apply String.eqb_eq in Hwt. apply ty_eqb_eq in H0. subst g t.
+          rewrite mapM_cons in Ha. simpl in Ha. bind_inv Ha. bind_inv Ha0. inversion Ha0; subst. clear Ha0.
+          bind_inv Ha. inversion Ha; subst. clear Ha.
+          inversion IH as [|? ? IHw IH']; subst. inversion Hss as [|? ? Hsw Hss']; subst.
+          simpl in Hkv. apply andb_true_iff in Hkv. destruct Hkv as [Hkw Hkv]. simpl in *.
+          rewrite String.eqb_refl.
+          rewrite (IHw H1 Hkw Hsw _ Ha1). simpl.
+          rewrite (IHfs IH' Hkv Hss' ds a H Ha0). reflexivity. }
+      rewrite Hd. reflexivity.
+    - (* VArray *)
+      rename H into IH.
+      simpl in He. bind_inv He. inversion He; subst. clear He. simpl.
+      rewrite (mapM_length _ _ _ Ha), Nat.eqb_refl.
+      rewrite wt_array in Hwt. apply andb_true_iff in Hwt. destruct Hwt as [_ Hwt].
+      assert (Hss : Forall safe es).
+      { unfold safe in Hs. simpl in Hs. apply Forall_flat_map in Hs. exact Hs. }
+      assert (Hd : mapM (dec_key JK kdec env t) a = Ok es).
+      { clear Hs. revert a Ha. induction es as [|e es IHes]; intros l Ha.
+        - rewrite mapM_nil in Ha. now inversion Ha.
+        - rewrite mapM_cons in Ha. bind_inv Ha. bind_inv Ha. inversion Ha; subst. clear Ha.
+          simpl in Hwt. repeat (apply andb_true_iff in Hwt; destruct Hwt as [Hwt ?]).
+          apply ty_eqb_eq in H0. subst t.
+          inversion IH as [|? ? IHe IH']; subst. inversion Hss as [|? ? Hse Hss']; subst.
+          simpl in Hkv. apply andb_true_iff in Hkv. destruct Hkv as [Hke Hkv].
+          rewrite mapM_cons, (IHe Hwt Hke Hse _ Ha0). simpl.
+          rewrite (IHes IH' H Hkv Hss' _ Ha1). reflexivity. }
+      rewrite Hd. reflexivity.
+  Qed.
+
   (* ---- containers *)
   Lemma elems_rt : forall t es,
     Forall P es -> elems_wt env t es = true -> Forall safe es -> Forall (fun e => Forall known (boxed_defs e)) es ->
@@ -328,13 +399,13 @@ Section Roundtrip.
 
   Lemma entries_rt : forall k t kvs,
     Forall (fun kv => P (fst kv) /\ P (snd kv)) kvs ->
-    key_ty k = true -> entries_wt env k t kvs = true ->
+    Forall (fun kv => kval (fst kv) = true) kvs -> entries_wt env k t kvs = true ->
     Forall (fun kv => safe (fst kv) /\ safe (snd kv)) kvs ->
     Forall (fun kv => Forall known (boxed_defs (snd kv))) kvs ->
     forall entries,
       mapM (fun kv => do i <- ENC 0 (snd kv); do jk <- enc_key JK kenc (fst kv); Ok (jk, i)) kvs = Ok entries ->
       exists kvs',
-        mapM (fun e => do k' <- dec_key JK kdec k (fst e); do v <- HOLE t (snd e); Ok (k', v)) entries = Ok kvs'
+        mapM (fun e => do k' <- dec_key JK kdec env k (fst e); do v <- HOLE t (snd e); Ok (k', v)) entries = Ok kvs'
         /\ Forall2 (fun a b => veq (fst a) (fst b) /\ veq (snd a) (snd b)) kvs' kvs.
   Proof.
     intros k t kvs HP Hk Hwt Hs Hbd entries H.
@@ -354,17 +425,11 @@ Section Roundtrip.
       destruct (HPb Hwb Hsb Hbb) as [_ [Hh _]]. destruct (Hh _ Hi) as [v' [Hd [Hv _]]].
       rewrite Htb in Hd.
       (* the key *)
-      assert (Hkk : is_basic_ty (ty_of a) = true) by (rewrite Hta; exact Hk).
-      destruct (key_shape _ _ Hwa Hkk) as [[bb [klit [Ea Hl]]]|[n [bb [klit [Ea Hl]]]]]; subst a;
-        simpl in Hjk, Hta, Hsa.
-      + assert (Hj : jsafe klit = true) by (inversion Hsa; assumption).
-        rewrite <- Hta. simpl. rewrite (krt _ _ _ Hl Hj Hjk). simpl. rewrite Hd. simpl.
-        eexists. split; [reflexivity|]. simpl. split; [constructor | assumption].
-      + assert (Hj : jsafe klit = true) by (inversion Hsa; assumption).
-        rewrite <- Hta. simpl. rewrite (krt _ _ _ Hl Hj Hjk). simpl. rewrite Hd. simpl.
-        eexists. split; [reflexivity|]. simpl. split; [constructor | assumption].
+      inversion Hk as [|? ? Hka Hk']. simpl in Hka.
+      rewrite <- Hta. rewrite (key_rt a Hwa Hka Hsa _ Hjk). simpl. rewrite Hd. simpl.
+      eexists. split; [reflexivity|]. simpl. split; [apply veq_refl | assumption].
     - simpl in Hwt. repeat (apply andb_true_iff in Hwt; destruct Hwt as [Hwt ?]).
-      inversion HP; subst. inversion Hs; subst. inversion Hbd; subst. now apply IH.
+      inversion HP; subst. inversion Hs; subst. inversion Hbd; subst. inversion Hk; subst. now apply IH.
   Qed.
 
   (* ---- structs: every field is encoded, decoded under its name and put back *)
@@ -541,7 +606,10 @@ Section Roundtrip.
       apply P_cont; try reflexivity. intros Hwt Hs Hbd pn oi ct c H0 Hc.
       rewrite wt_map in Hwt. apply andb_true_iff in Hwt. destruct Hwt as [Hwt Hew].
       apply andb_true_iff in Hwt. destruct Hwt as [Hkt _].
-      apply andb_true_iff in Hew. destruct Hew as [Hew _].
+      apply andb_true_iff in Hew. destruct Hew as [Hew Hkn].
+      assert (Hkvs : Forall (fun kv => kval (fst kv) = true) kvs).
+      { unfold keys_nodup in Hkn. apply andb_true_iff in Hkn. destruct Hkn as [Hkn _].
+        rewrite forallb_forall in Hkn. apply Forall_forall. exact Hkn. }
       rewrite enc_map in H0. bind_inv H0. bind_inv H0. bind_inv H0. inversion H0; subst. clear H0.
       destruct (elem_key_inv _ _ Ha) as [k0 [Hlk Hk]].
       destruct (elem_key_inv _ _ Ha0) as [t0 [Hlt Ht]].
@@ -551,7 +619,7 @@ Section Roundtrip.
       assert (Hbs : Forall (fun kv => Forall known (boxed_defs (snd kv))) kvs).
       { simpl in Hbd. apply Forall_flat_map in Hbd.
         eapply Forall_impl; [|exact Hbd]. intros kv Hkv. apply Forall_app in Hkv. apply Hkv. }
-      destruct (entries_rt k t kvs H Hkt Hew Hss Hbs _ Ha1) as [kvs' [Hd HF]].
+      destruct (entries_rt k t kvs H Hkvs Hew Hss Hbs _ Ha1) as [kvs' [Hd HF]].
       eexists _, (VMap k t (Some kvs')). split; [reflexivity|]. split; [reflexivity|].
       split; [|split; [|reflexivity]].
       + simpl set_cti. rewrite dec_map, Hlk. simpl. rewrite Hlt. simpl. rewrite Hk, Ht.
